@@ -46,7 +46,14 @@ func genCase(t *rapid.T) Case {
 		}
 	}
 	if rapid.IntRange(0, 2).Draw(t, "earlier-connections?") == 0 {
-		c.Prelude = rapid.SliceOfN(rapid.SampledFrom([]string{"served", "startup-abort", "ssl-abort", "ssl-garbage", "tls-no-startup"}), 1, 4).Draw(t, "prelude")
+		c.Prelude = rapid.SliceOfN(rapid.SampledFrom([]string{"served", "startup-abort", "ssl-abort", "ssl-garbage", "tls-no-startup", "cancel"}), 1, 4).Draw(t, "prelude")
+		if rapid.IntRange(0, 3).Draw(t, "many-earlier") == 0 {
+			// the same thing many times over: whatever a connection of that kind leaves behind adds up
+			k := rapid.SampledFrom([]string{"cancel", "served", "startup-abort", "ssl-abort"}).Draw(t, "repeated-kind")
+			for i, n := 0, rapid.SampledFrom([]int{10, 11, 16, 33, 70}).Draw(t, "repeats"); i < n; i++ {
+				c.Prelude = append(c.Prelude, k)
+			}
+		}
 		if rapid.Bool().Draw(t, "tls-configured") {
 			c.Cfg.TLS = "cert"
 		}
